@@ -137,6 +137,28 @@ func c03Run(c *core.Ctx) {
 			}
 		}
 	}
+	// (1c) every witness followed by / preceded by every byte-string constant of
+	// the detectors' sources (built-in tree and the zip/json extension trees)
+	lits := literals(c)
+	c.Info("source_literals", fmt.Sprint(len(lits)))
+	for _, ti := range []int{0, 3, 4} {
+		for _, w := range W {
+			if len(w.Data) > 2000 || !c.Next() || c.Expired() {
+				continue
+			}
+			for _, lit := range lits {
+				s := append(append([]byte{}, w.Data...), lit...)
+				c.R.States++
+				try(ti, s, 0, "witness+source-literal")
+				try(ti, s, uint32(len(w.Data)+len(lit)/2), "witness+source-literal")
+				if ti == 0 {
+					p := append(append([]byte{}, lit...), w.Data...)
+					c.R.States++
+					try(ti, p, 0, "source-literal+witness")
+				}
+			}
+		}
+	}
 	// (2) splices of all ordered pairs, on the built-in tree and (thorough) on all trees
 	var spliceTrees []int
 	for i := 0; i < trees; i++ {
